@@ -50,7 +50,8 @@ Proof.
   - unfold handle_touch. destruct (negb _); [intros H; inversion H; subst; exact U|].
     destruct (get_or_create c sid) as [s c1| |code] eqn:G; try (intros H; inversion H; subst; exact U).
     intros H; inversion H; subst. eapply goc_ue; eassumption.
-  - intros H; inversion H; subst. unfold local_open, UE in *. destruct (sget sid (c_streams c)); [exact U|].
+  - intros H; inversion H; subst. unfold local_open, UE in *. destruct (negb (can_send c sid)); [exact U|]. destruct (sget sid (c_streams c)); [exact U|].
+    destruct (negb (Bool.eqb (client_initiated sid) (c_client c))); [exact U|].
     cbn. rewrite sum_hi_app, sum_hi_cons. unfold hi_of; cbn. unfold sum_hi in *; cbn. lia.
   - unfold write.
     pose proof (raise_streams_props _ (ci_streams _ I)) as PS.
